@@ -163,6 +163,14 @@ pub fn judge(rt: &tokio::runtime::Runtime, r: &mut Report, case: &Case) {
     }
 }
 
+pub fn sign_header_pub(req: &mut RawRequest, ak: &str, secret: &str) {
+    sign_header(req, ak, secret);
+}
+
+pub fn sign_query_pub(req: &mut RawRequest, ak: &str, secret: &str, expires: i64) {
+    sign_query(req, ak, secret, expires);
+}
+
 fn sign_header(req: &mut RawRequest, ak: &str, secret: &str) {
     let date = one_header(req, "date").unwrap_or(None).unwrap_or_default();
     let amz = one_header(req, "x-amz-date").unwrap_or(None);
